@@ -528,6 +528,14 @@ impl<E: FlowKeyExtractor> UdpManager<E> {
                 }
             }
         }
+        // A firing spends the shell's single one-shot timer whether or not any
+        // flow was due: the wheel rounds a delay to the nearest tick, so it can
+        // fire up to half a tick BEFORE the armed deadline. Forget the armed
+        // deadline so `reschedule` re-emits `ArmTimer` whenever a flow is still
+        // scheduled; otherwise an early firing leaves the remaining flows
+        // without any timer and they are never reaped (pinning their
+        // `max_flows` slots until unrelated traffic moves the deadline).
+        self.armed_deadline = None;
         self.reschedule();
 
         // Strict-advance guard: after firing every flow due at `now`, the next
